@@ -167,6 +167,9 @@ def handle (model : String) : List String → String
       else if failed ≠ 0 then "SPEC key=request-failed-during-faults"
       else s!"OK tags=conc,{if inj = 0 then "nofaults" else if inj > 20 then "manyfaults" else "faults"}"
     | _, _, _, _, _, _, _, _ => "BAD conc fields"
+  | ["check", name, verdict] =>
+    -- a scripted observation on real region clients whose expected outcome is fixed (harness/c20conn.go)
+    if verdict = "ok" then s!"OK tags=check,{name}" else s!"SPEC key={name} observed={verdict}"
   | ["script", name, results, unavail] =>
     let rs := results.splitOn ","
     if rs.any (· ≠ "ok") then s!"SPEC key=request-blocked-after-stabilisation-{name} results={results}"
